@@ -188,6 +188,36 @@ Definition chk_qtable (qtol : T) (Vs : list T) (Qt : nat -> nat -> T) : bool :=
     end &&
     forallbn nAp (fun a => ncloseb qtol (Qt s a) (Qval m (untab Vs) s a))).
 
+
+(* PBVI (j sweeps) never exceeds QMDP (table Qt) by more than tail j *)
+Definition chk_cross (tol : T) (j : nat) (G : list (list T)) (Qt : nat -> nat -> T) (u : nat -> T) : bool :=
+  match alpha_value G u, qmdp_value Qt u with
+  | Some v, Some w => v <=? (w + tail j u) + tol
+  | _, _ => false
+  end.
+(* fully observable, belief set closed under successors: PBVI is exact at its belief points,
+   i.e. also at least the j-step QMDP value (= Wopt j, theorem fullobs_qmdp_exact) *)
+Definition chk_fullobs_ge (tol : T) (j : nat) (G : list (list T)) (u : nat -> T) : bool :=
+  match alpha_value G u, j with
+  | None, _ => false
+  | Some v, O => n0 <=? v + tol
+  | Some v, S j' => odflt n0 (qmdp_value (Qval m (Vk j')) u) <=? v + tol
+  end.
+
+(* elementwise comparison of two alpha-vector lists *)
+Fixpoint vclose (tol : T) (l1 l2 : list T) : bool :=
+  match l1, l2 with
+  | [], [] => true
+  | x :: r1, y :: r2 => ncloseb tol x y && vclose tol r1 r2
+  | _, _ => false
+  end.
+Fixpoint gclose (tol : T) (G1 G2 : list (list T)) : bool :=
+  match G1, G2 with
+  | [], [] => true
+  | x :: r1, y :: r2 => vclose tol x y && gclose tol r1 r2
+  | _, _ => false
+  end.
+
 (* well-formedness as a boolean (each concrete case discharges it by computation) *)
 Definition wfpomdpb : bool :=
   (n0 <=? gamma m) && nltb (gamma m) n1 && negb (Nat.eqb nAp 0) &&
@@ -234,5 +264,18 @@ Definition chk_pbvi_le_qmdpF tol j G (u : list T) := chk_pbvi_le_qmdp p tol j G 
 Definition chk_qmdp_lowerF tol k (Qt : list (list T)) (u : list T) :=
   chk_qmdp_lower p tO_tab rM_tab tol k (untab2 Qt) (untab u).
 Definition chk_qtableF qtol Vs (Qt : list (list T)) := chk_qtable p qtol Vs (untab2 Qt).
+Definition chk_crossF tol j G (Qt : list (list T)) (u : list T) :=
+  chk_cross p rM_tab tol j G (untab2 Qt) (untab u).
+Definition chk_fullobs_geF tol j G (u : list T) := chk_fullobs_ge p tol j G (untab u).
+(* mirror run compared with the implementation's alpha vectors:
+   (sweeps, ambiguity flag, all vectors within tol) *)
+Definition mirror_cmp (horizon : nat) (amb eps : T) (B Gimpl : list (list T)) (tol : T) : nat * bool * bool :=
+  let r := pbvi_runF horizon amb eps B in
+  (snd (fst r), snd r, gclose tol (fst (fst r)) Gimpl).
+Definition alpha_valueF G (u : list T) : T := odflt n0 (alpha_value p G (untab u)).
+Definition alpha_avF G (u : list T) : list T := tab (nA m) (alpha_action_value p G (untab u)).
+Definition qmdp_avF (Qt : list (list T)) (u : list T) : list T :=
+  tab (nA m) (qmdp_action_value p (untab2 Qt) (untab u)).
+Definition greedy_checkF ptol (av d : list T) : bool := greedy_check ptol (nA m) (untab av) (untab d).
 
 End Inst.
